@@ -240,6 +240,9 @@ pub fn run_case(id: usize, input: &Value) {
     cfg.ignore_path_and_query_case = cfgj["ic_path"].as_bool().unwrap();
     cfg.ignore_header_case = cfgj["ic_header"].as_bool().unwrap_or(false);
     cfg.always_match_any_host = cfgj["always"].as_bool().unwrap();
+    // absent = the default of RouterConfig (true): requests reach the models normalised, so the flag only matters for
+    // the raw-request check of C17 below
+    if let Some(b) = cfgj["imqp"].as_bool() { cfg.ignore_marketing_query_params = b; }
     let with_trace = input["trace"].as_bool().unwrap_or(false);
     let specs: Vec<Spec> = input["routes"].as_array().unwrap().iter().enumerate().map(|(i, j)| Spec { idx: i, j: j.clone() }).collect();
     let inp = input.clone();
@@ -295,6 +298,31 @@ pub fn run_case(id: usize, input: &Value) {
             }
         }
         if twin == Some(false) { obs.push(vec![vec![9, 9, 9]]); } // one observation more than operations: both verdict bits flag it
+        // C17 on RAW requests: the trace of a request that was not normalised (query parameters in another order) lists the
+        // routes that matching the REBUILT request returns, whatever the configuration flags
+        if with_trace {
+            let mut raw_differs = false;
+            for p in inp["probes"].as_array().unwrap() {
+                let path = p["path"].as_str().unwrap();
+                let (base, query) = match path.split_once('?') { Some(x) => x, None => continue };
+                let mut params: Vec<&str> = query.split('&').collect();
+                params.reverse();
+                let raw_path = format!("{}?{}", base, params.join("&"));
+                let mut raw = Request::new(redirectionio::http::PathAndQueryWithSkipped::from_static(&raw_path), raw_path.clone(),
+                    p["host"].as_str().map(|s| s.to_string()), p["scheme"].as_str().map(|s| s.to_string()), p["method"].as_str().map(|s| s.to_string()), None, None);
+                for h in p["headers"].as_array().unwrap() { raw.add_header(h[0].as_str().unwrap().into(), h[1].as_str().unwrap().into(), false); }
+                if let Some(a) = p["addr"].as_str() { raw.remote_addr = Some(a.parse().unwrap()); }
+                raw.created_at = p["time"].as_str().map(|t| t.parse().unwrap());
+                let traces = router.trace_request(&raw);
+                let mut t: Vec<u64> = redirectionio::router::Trace::get_routes_from_traces(&traces).iter().map(|r| r.handler().idx as u64).collect();
+                t.sort(); t.dedup();
+                let rebuilt = router.rebuild_request(&raw);
+                let mut m: Vec<u64> = router.match_request(&rebuilt).iter().map(|r| r.handler().idx as u64).collect();
+                m.sort(); m.dedup();
+                if t != m { raw_differs = true; eprintln!("raw request {}: trace {:?} vs match of the rebuilt request {:?}", raw_path, t, m); }
+            }
+            if raw_differs { obs.push(vec![vec![9, 9, 8]]); }
+        }
         (built, probes.into_iter().map(|p| p.1).collect::<Vec<String>>(), obs, twin)
     });
     let (built, probes, obs, twin) = match res {
@@ -338,8 +366,8 @@ pub fn run_case(id: usize, input: &Value) {
 
 // ------------------------------------------------------------------------------------------- generators
 const HOSTS: &[&str] = &["a.com", "b.com", "www.a.com", "Shop.a.com"];
-const PATHS: &[&str] = &["/", "/x", "/x/1", "/y", "/blog/post-a", "/blog/42", "/Blog/42"];
-const PATH_TEMPLATES: &[(&str, &str)] = &[("/x/@m", "[0-9]+"), ("/blog/@m", "[a-z\\-]+"), ("/blog/@m", "[0-9]+"), ("/@m", "(?:x|y)"), ("/x@m", ".*"), ("/Blog/@m", "[0-9]+")];
+const PATHS: &[&str] = &["/", "/x", "/x/1", "/y", "/blog/post-a", "/blog/42", "/Blog/42", "/x?a=1&b=2"];
+const PATH_TEMPLATES: &[(&str, &str)] = &[("/x/@m", "[0-9]+"), ("/blog/@m", "[a-z\\-]+"), ("/blog/@m", "[0-9]+"), ("/@m", "(?:x|y)"), ("/x@m", ".*"), ("/Blog/@m", "[0-9]+"), ("/x/@m", "[^)/]+"), ("/x/@m/1", "[^)/]+"), ("/blog/@m", "[^(]+")];
 const HOST_TEMPLATES: &[(&str, &str)] = &[("@m.a.com", "[a-z]+"), ("@m.com", "(?:a|b)"), ("www.@m", ".+"), ("Shop-@m.a.com", "[a-z]+")];
 const METHODS: &[&str] = &["GET", "POST", "PUT"];
 const HNAMES: &[&str] = &["X-A", "x-a", "Accept"];
@@ -393,7 +421,7 @@ fn gen_probe(rng: &mut Rng) -> Value {
     json!({"path": path, "host": host, "scheme": scheme, "method": method, "headers": headers, "addr": addr, "time": time})
 }
 
-fn gen_cfg(rng: &mut Rng) -> Value { json!({"ic_host": rng.chance(1, 3), "ic_path": rng.chance(1, 3), "ic_header": rng.chance(1, 3), "always": rng.chance(1, 2)}) }
+fn gen_cfg(rng: &mut Rng) -> Value { json!({"ic_host": rng.chance(1, 3), "ic_path": rng.chance(1, 3), "ic_header": rng.chance(1, 3), "always": rng.chance(1, 2), "imqp": rng.chance(1, 2)}) }
 
 /// routes sharing header conditions from a small pool (groups of the header matcher overlap), few other triggers
 fn header_focus(rng: &mut Rng, routes: &mut Vec<Value>, probes: &mut Vec<Value>) {
